@@ -121,7 +121,11 @@ fn exec_huge(case: &Case, stats: &mut Stats) -> RunOut<Case> {
         };
         digest.bytes(data.get(n..).unwrap_or(&[]));
         digest.str(&format!("{:?}", out));
-        let prefix_ok = data.len() >= before_len && data[..n].iter().all(|b| *b == 0) && data[n..before_len] == tail_before[..];
+        // below 1 GiB the whole prefix is scanned after every call; above, the first and last 64 MiB after every
+        // call (where a wrapped or truncated index lands) and the whole prefix once more at the end of the batch
+        let w = 64usize << 20;
+        let zero = if n <= (1usize << 30) { all_zero(&data[..n]) } else { all_zero(&data[..w]) && all_zero(&data[n - w..n]) };
+        let prefix_ok = data.len() >= before_len && zero && data[n..before_len] == tail_before[..];
         if !prefix_ok {
             let at = data.iter().take(n.min(data.len())).position(|b| *b != 0);
             violations.push((
@@ -171,8 +175,23 @@ fn exec_huge(case: &Case, stats: &mut Stats) -> RunOut<Case> {
             LibOut::Returned(_) => unreachable!(),
         }
     }
+    if violations.is_empty() && n > (1usize << 30) && !(data.len() >= n && all_zero(&data[..n])) {
+        violations.push((
+            Viol { class: "prior_bytes_modified:unattributed".into(), detail: format!("some call of the batch changed the {n}-byte prefix outside its first and last 64 MiB") },
+            None,
+        ));
+    }
     stats.sample(8, || json!({"prior_buffer_zero_bytes": n, "calls": case.calls.iter().map(|c| c.op.name()).collect::<Vec<_>>()}));
     RunOut { digest: digest.finish(), violations }
+}
+
+/// Is the slice all zero? Scanned on 8 threads (memory-bandwidth bound; the slice may be 4 GiB).
+fn all_zero(b: &[u8]) -> bool {
+    let chunk = (b.len() / 8).max(1 << 20);
+    std::thread::scope(|sc| {
+        let hs: Vec<_> = b.chunks(chunk).map(|c| sc.spawn(move || c.iter().all(|x| *x == 0))).collect();
+        hs.into_iter().all(|h| h.join().unwrap_or(false))
+    })
 }
 
 impl Scenario for Batch {
@@ -256,9 +275,24 @@ impl Scenario for Batch {
             0
         };
         if prefill_zeros > 0 {
-            calls.truncate(3);
-            for c in calls.iter_mut() {
-                c.bad_item = None;
+            // purpose-built: every buffer-writing function once with JSONB arguments, then the text branches once
+            calls.clear();
+            let all = OpGenCfg { kinds: BATCH_KINDS, vals: &vals, filters: true, fail_pct: 0 };
+            for pass in 0..2 {
+                for kind in BATCH_KINDS {
+                    let op = opgen::gen_op(&mut r, kind, &regs, &all);
+                    let reads = op.reads();
+                    let mut text_regs: Vec<usize> = vec![];
+                    if pass == 1 {
+                        if !(0..reads.len()).all(|p| op.arg_accepts_text(p) && !regs[reads[p]].has_nonfinite()) {
+                            continue;
+                        }
+                        text_regs = reads.clone();
+                        text_regs.dedup();
+                    }
+                    let expect_err = documented_error(&op, &regs);
+                    calls.push(Call { op, text_regs, expect_err, bad_item: None });
+                }
             }
         }
         Case { regs, styles, prefill, prefill_offsets, policy, calls, prefill_zeros }
